@@ -25,9 +25,7 @@ fn case_strategy() -> impl Strategy<Value = C14Case> {
     (prop_oneof![3 => history_strategy(true, 3, 4), 1 => history_strategy(false, 3, 5)], proptest::collection::vec(0u8..6, 0..5)).prop_map(|(mut history, delays)| {
         // fragmentation needs known chunks: make the first session store a long run of the pool
         history.n_ids = history.n_ids.clamp(40, 400);
-        for s in history.sessions.iter_mut() {
-            s.client = 0;
-        }
+        // (sessions keep their generated client: cross-client sessions exercise the global-dedup counters)
         C14Case { history, delays }
     })
 }
@@ -76,6 +74,9 @@ fn oracle(c: &C14Case, info: &mut Case) -> Result<(), String> {
             }
             if m.defrag_prevented_dedup_chunks > 0 {
                 withheld_files += 1;
+            }
+            if m.deduped_chunks_by_global_dedup > 0 {
+                info.label("file-deduped-through-global-dedup");
             }
             sum.merge_in(m);
         }
